@@ -26,21 +26,43 @@ import (
 
 type lfVal interface{}
 
-type vInt struct{ E Lin }
+type vInt struct {
+	E Lin
+	B *bv // bit provenance (nil = unknown); only maintained in bits mode
+}
 type vSlice struct {
 	Len Lin
+	Org *sliceOrg // identity/offset within a named byte buffer (wire input or output)
+}
+
+// sliceOrg identifies a window into a byte buffer: Name "d" for decoder input,
+// "pre<n>"/"app<n>" for bytes obtained from SerializeBuffer.PrependBytes/AppendBytes.
+type sliceOrg struct {
+	ID   int
+	Name string
+	Off  Lin
+}
+
+type elemRef struct {
+	Org *sliceOrg
+	Idx Lin // index within the buffer (offset already added)
 }
 type vBoolConst bool
 type vCmp struct { // a OP b over integers
 	Op   token.Token
 	A, B Lin
+	Bit  *bvBit // when set: the comparison is true exactly when this bit is 1
 }
-type vOpaqueBool struct{ ID int }
+type vOpaqueBool struct {
+	ID   int
+	Name string // bits mode: the receiver field this boolean was loaded from
+}
 type vNot struct{ X lfVal }
 type vPtr struct {
 	Obj  int
 	Path string
-	Nil  int // 0 non-nil/unknown, 1 definitely nil (literal)
+	Nil  int      // 0 non-nil/unknown, 1 definitely nil (literal)
+	Elem *elemRef // element of a named byte buffer
 }
 type vNilable struct { // interface / pointer-ish value whose nil-ness matters
 	ID  int
@@ -64,10 +86,18 @@ type lfState struct {
 	heap    map[string]lfVal
 	decided map[int]bool // opaque boolean id → value chosen on this path
 	trail   []string     // human-readable branch decisions (for reports)
+	events  []lfEvent    // bits mode: stores to receiver fields / output bytes, in order
+}
+
+type lfEvent struct {
+	Kind, Name, Val string
+	Pos             token.Pos
+	B               *bv // structured value when known (integers: bits; booleans: one bit)
+	L               *Lin // for "len" events: the requested length
 }
 
 func (s *lfState) clone() *lfState {
-	n := &lfState{cons: append([]Cons{}, s.cons...), heap: make(map[string]lfVal, len(s.heap)), decided: make(map[int]bool, len(s.decided)), trail: append([]string{}, s.trail...)}
+	n := &lfState{cons: append([]Cons{}, s.cons...), heap: make(map[string]lfVal, len(s.heap)), decided: make(map[int]bool, len(s.decided)), trail: append([]string{}, s.trail...), events: append([]lfEvent{}, s.events...)}
 	for k, v := range s.heap {
 		n.heap[k] = v
 	}
@@ -132,6 +162,18 @@ type lfEngine struct {
 	pending   []*ssa.Function
 	scheduled map[*ssa.Function]bool
 	copyTotal map[*ssa.Call]*lfCopy
+
+	// bits mode (engine E2)
+	bits     bool
+	recvObj  int                    // object id of the entry function's receiver
+	onStore  func(st *lfState, kind, name string, val string, pos token.Pos, b *bv)
+	onReturn func(st *lfState, rets []lfVal)
+	bufSeq   int
+	initR    *initReader
+	boolName map[int]string
+	// fieldWidth: bits mode: wire width of receiver fields narrower than their
+	// Go type (values are assumed to be within their wire width)
+	fieldWidth map[string]int
 }
 
 type lfCopy struct{ Total, Partial int }
@@ -298,20 +340,20 @@ func (e *lfEngine) fresh(st *lfState, t types.Type, name string) lfVal {
 			} else if u.Info()&types.IsUnsigned != 0 {
 				st.cons = append(st.cons, geq(linSym(s), linConst(0)))
 			}
-			return vInt{linSym(s)}
+			return vInt{E: linSym(s)}
 		case u.Info()&types.IsBoolean != 0:
-			return vOpaqueBool{e.id()}
+			return vOpaqueBool{ID: e.id()}
 		case u.Info()&types.IsString != 0:
 			s := e.newSym("len(" + name + ")")
 			st.cons = append(st.cons, geq(linSym(s), linConst(0)))
-			return vSlice{linSym(s)}
+			return vSlice{Len: linSym(s)}
 		}
 	case *types.Slice:
 		s := e.newSym("len(" + name + ")")
 		st.cons = append(st.cons, geq(linSym(s), linConst(0)))
-		return vSlice{linSym(s)}
+		return vSlice{Len: linSym(s)}
 	case *types.Array:
-		return vSlice{linConst(u.Len())}
+		return vSlice{Len: linConst(u.Len())}
 	case *types.Pointer:
 		return vPtr{Obj: e.id(), Path: ""}
 	case *types.Interface, *types.Signature, *types.Map, *types.Chan:
@@ -428,7 +470,7 @@ func (e *lfEngine) val(fr *lfFrame, st *lfState, v ssa.Value) lfVal {
 		if x.Value == nil {
 			switch x.Type().Underlying().(type) {
 			case *types.Slice:
-				return vSlice{linConst(0)}
+				return vSlice{Len: linConst(0)}
 			case *types.Pointer:
 				return vPtr{Obj: 0, Nil: 1}
 			}
@@ -437,12 +479,12 @@ func (e *lfEngine) val(fr *lfFrame, st *lfState, v ssa.Value) lfVal {
 		switch x.Value.Kind() {
 		case constant.Int:
 			if k, ok := constant.Int64Val(x.Value); ok {
-				return vInt{linConst(k)}
+				return vInt{E: linConst(k)}
 			}
 		case constant.Bool:
 			return vBoolConst(constant.BoolVal(x.Value))
 		case constant.String:
-			return vSlice{linConst(int64(len(constant.StringVal(x.Value))))}
+			return vSlice{Len: linConst(int64(len(constant.StringVal(x.Value))))}
 		case constant.Float:
 			if f, ok := constant.Float64Val(x.Value); ok && f == float64(int64(f)) {
 				return vFloat{E: linConst(int64(f)), Den: 1}
@@ -528,6 +570,164 @@ func (e *lfEngine) normalise(st *lfState, x Lin, t types.Type, name string) Lin 
 		return x
 	}
 	return e.fresh(st, t, name).(vInt).E
+}
+
+// mkCmp builds a comparison value; in bits mode it recognises "single source
+// bit (!=|==) 0" and keeps the bit.
+func (e *lfEngine) mkCmp(st *lfState, x *ssa.BinOp, a, b Lin, l, r lfVal) lfVal {
+	c := vCmp{Op: x.Op, A: a, B: b}
+	if e.bits && (x.Op == token.NEQ || x.Op == token.EQL) {
+		li, lok := l.(vInt)
+		ri, rok := r.(vInt)
+		if lok && rok {
+			var bits *bv
+			if k, isK := b.isConst(); isK && k == 0 {
+				bits = li.B
+			} else if k, isK := a.isConst(); isK && k == 0 {
+				bits = ri.B
+			}
+			if bit, ok := bits.singleBit(); ok {
+				if x.Op == token.EQL {
+					bit = bitXor(bit, bvBit{K: '1'})
+				}
+				c.Bit = &bit
+			}
+		}
+	}
+	return c
+}
+
+func typeBits(t types.Type) int {
+	b, ok := t.Underlying().(*types.Basic)
+	if !ok {
+		return 0
+	}
+	switch b.Kind() {
+	case types.Int8, types.Uint8:
+		return 8
+	case types.Int16, types.Uint16:
+		return 16
+	case types.Int32, types.Uint32:
+		return 32
+	case types.Int, types.Int64, types.Uint, types.Uint64, types.Uintptr:
+		return 64
+	case types.Bool:
+		return 1
+	}
+	return 0
+}
+
+func isSignedInt(t types.Type) bool {
+	b, ok := t.Underlying().(*types.Basic)
+	return ok && b.Info()&types.IsInteger != 0 && b.Info()&types.IsUnsigned == 0
+}
+
+// withBits attaches bit provenance to an integer value and, when the linear
+// form is a single fresh symbol, names that symbol canonically after the bits
+// so that arithmetic over it renders in terms of wire/field bits.
+func (e *lfEngine) withBits(v vInt, b *bv) vInt {
+	if !e.bits || b == nil {
+		return v
+	}
+	v.B = b
+	if len(v.E.T) == 1 && v.E.C == 0 {
+		for s, k := range v.E.T {
+			if k == 1 && int(s) < len(e.symNames) {
+				if kk, isK := b.isConst(); isK {
+					_ = kk
+				} else {
+					e.symNames[s] = b.render()
+				}
+			}
+		}
+	}
+	return v
+}
+
+// bitsOfVal returns the structured bits of a value (nil if unknown).
+func (e *lfEngine) bitsOfVal(v lfVal, width int) *bv {
+	switch x := v.(type) {
+	case vInt:
+		if x.B != nil {
+			return x.B
+		}
+		if k, ok := x.E.isConst(); ok && width > 0 {
+			return bvConst(k, width)
+		}
+	case vBoolConst:
+		if bool(x) {
+			return bvConst(1, 1)
+		}
+		return bvConst(0, 1)
+	case vCmp:
+		if x.Bit != nil {
+			return &bv{Bits: []bvBit{*x.Bit}}
+		}
+	case vNot:
+		if b := e.bitsOfVal(x.X, 1); b != nil && len(b.Bits) == 1 {
+			return &bv{Bits: []bvBit{bitXor(b.Bits[0], bvBit{K: '1'})}}
+		}
+	case vOpaqueBool:
+		if x.Name != "" {
+			return bvSrc("f:"+x.Name, 1)
+		}
+	}
+	return nil
+}
+
+// renderVal gives the canonical text of a value for layout comparison.
+func (e *lfEngine) renderVal(v lfVal) string {
+	switch x := v.(type) {
+	case vInt:
+		if x.B != nil {
+			return x.B.render()
+		}
+		if k, ok := x.E.isConst(); ok {
+			return fmt.Sprintf("%d", k)
+		}
+		return "lin(" + e.linString(x.E) + ")"
+	case vBoolConst:
+		if bool(x) {
+			return "true"
+		}
+		return "false"
+	case vCmp:
+		if x.Bit != nil {
+			b := &bv{Bits: []bvBit{*x.Bit}}
+			return b.String()
+		}
+		return "cmp(" + e.linString(x.A) + x.Op.String() + e.linString(x.B) + ")"
+	case vNot:
+		return "!" + e.renderVal(x.X)
+	case vOpaqueBool:
+		if x.Name != "" {
+			return "f:" + x.Name
+		}
+		return "?bool"
+	case vSlice:
+		if x.Org != nil {
+			if k, ok := x.Org.Off.isConst(); ok {
+				if n, ok := x.Len.isConst(); ok {
+					return fmt.Sprintf("%s[%d:%d]", x.Org.Name, k, k+n)
+				}
+				return fmt.Sprintf("%s[%d:+%s]", x.Org.Name, k, e.linString(x.Len))
+			}
+			return x.Org.Name + "[" + e.linString(x.Org.Off) + ":+" + e.linString(x.Len) + "]"
+		}
+		if n, ok := x.Len.isConst(); ok && n == 0 {
+			return "empty"
+		}
+		return "?slice"
+	case vNilable:
+		if x.Nil == 1 {
+			return "nil"
+		}
+	case vPtr:
+		if x.Nil == 1 {
+			return "nil"
+		}
+	}
+	return "?"
 }
 
 // ---------------------------------------------------------------- branch conditions
@@ -635,8 +835,22 @@ func (e *lfEngine) runEntry(fn *ssa.Function, setup func(fr *lfFrame, st *lfStat
 	st := &lfState{heap: map[string]lfVal{}, decided: map[int]bool{}}
 	fr := &lfFrame{fn: fn, env: map[ssa.Value]lfVal{}, loops: naturalLoops(fn)}
 	e.entryName = e.c.FnName(fn)
-	for _, p := range fn.Params {
-		fr.env[p] = e.fresh(st, p.Type(), p.Name())
+	for i, p := range fn.Params {
+		v := e.fresh(st, p.Type(), p.Name())
+		if e.bits {
+			if pv, ok := v.(vPtr); ok && i == 0 && fn.Signature.Recv() != nil {
+				e.recvObj = pv.Obj
+			}
+			if sv, ok := v.(vSlice); ok {
+				if sl, ok := p.Type().Underlying().(*types.Slice); ok {
+					if b, ok := sl.Elem().Underlying().(*types.Basic); ok && b.Kind() == types.Uint8 {
+						sv.Org = &sliceOrg{ID: e.id(), Name: "d", Off: linConst(0)}
+						v = sv
+					}
+				}
+			}
+		}
+		fr.env[p] = v
 	}
 	if setup != nil {
 		setup(fr, st)
@@ -749,11 +963,22 @@ func (e *lfEngine) execFrom(fr *lfFrame, st *lfState, b, from *ssa.BasicBlock, s
 					return
 				}
 			}
+			if fr.parent == nil && e.onReturn != nil && e.quiet == 0 {
+				e.onReturn(st, rets)
+			}
 			k(st, rets)
 			return
 		case *ssa.Panic:
 			e.unknownObl(fr, in, "explicit panic", "an explicit panic statement is reachable")
 			return
+		case *ssa.Lookup:
+			// lookup in a package-level constant table of functions: one state per entry
+			if e.tableLookup(fr, st, x, func(st2 *lfState, fr2 *lfFrame) {
+				e.execFrom(fr2, st2, b, from, i+1, k)
+			}) {
+				return
+			}
+			e.step(fr, st, in)
 		case *ssa.Call:
 			// calls may fork (inlined callees with several return states)
 			e.doCall(fr, st, x, func(st2 *lfState, res lfVal, fr2 *lfFrame) {
@@ -765,6 +990,72 @@ func (e *lfEngine) execFrom(fr *lfFrame, st *lfState, b, from *ssa.BasicBlock, s
 			e.step(fr, st, in)
 		}
 	}
+}
+
+// tableLookup handles m[k] where m is a package-level map of the module
+// initialised with constant integer keys and function values: the path forks
+// per entry with k constrained to the key, so that a later dynamic call
+// resolves to exactly the selected function.
+func (e *lfEngine) tableLookup(fr *lfFrame, st *lfState, x *ssa.Lookup, cont func(*lfState, *lfFrame)) bool {
+	ld, ok := x.X.(*ssa.UnOp)
+	if !ok || ld.Op != token.MUL {
+		return false
+	}
+	g, ok := ld.X.(*ssa.Global)
+	if !ok || g.Pkg == nil || !strings.HasPrefix(g.Pkg.Pkg.Path(), modPath) {
+		return false
+	}
+	if e.initR == nil {
+		e.initR = newInitReader(e.c)
+	}
+	tbl := e.initR.global(g)
+	if tbl.Kind != "map" || len(tbl.Entries) == 0 {
+		return false
+	}
+	type ent struct {
+		k  int64
+		fn *ssa.Function
+	}
+	var ents []ent
+	for _, en := range tbl.Entries {
+		k, isK := en.K.Int()
+		if !isK || en.V.Kind != "func" {
+			return false
+		}
+		ents = append(ents, ent{k, en.V.Func})
+	}
+	// the table must not be written outside the initialiser (checked by C19); here: no MapUpdate on it in library code
+	idx, isInt := e.val(fr, st, x.Index).(vInt)
+	if !isInt {
+		return false
+	}
+	mk := func(s2 *lfState, f2 *lfFrame, fn *ssa.Function, found bool) {
+		var v lfVal = vNilable{ID: e.id(), Nil: 1}
+		if found {
+			v = vNilable{ID: e.id(), Nil: 2, Inner: vFunc{Fn: fn}}
+		}
+		if x.CommaOk {
+			f2.env[x] = vTuple{v, vBoolConst(found)}
+		} else {
+			f2.env[x] = v
+		}
+		cont(s2, f2)
+	}
+	for _, en := range ents {
+		cs := []Cons{geq(idx.E, linConst(en.k)), leq(idx.E, linConst(en.k))}
+		if infeasibleWith(st.cons, cs...) {
+			continue
+		}
+		s2 := st.clone()
+		s2.cons = append(s2.cons, cs...)
+		s2.trail = append(s2.trail, fmt.Sprintf("%s[%d]", g.Name(), en.k))
+		mk(s2, fr.cloneEnv(), en.fn, true)
+	}
+	// key not in the table (no constraint kept: over-approximation)
+	s2 := st.clone()
+	s2.trail = append(s2.trail, g.Name()+"[other]")
+	mk(s2, fr.cloneEnv(), nil, false)
+	return true
 }
 
 // step executes one non-control instruction.
@@ -803,6 +1094,9 @@ func (e *lfEngine) step(fr *lfFrame, st *lfState, in ssa.Instruction) {
 		var p vPtr
 		if bp, ok := base.(vPtr); ok {
 			p = vPtr{Obj: bp.Obj, Path: bp.Path + "[" + idx.key() + "]"}
+		} else if sv, ok := base.(vSlice); ok && sv.Org != nil {
+			at := sv.Org.Off.add(idx, 1)
+			p = vPtr{Obj: -50000 - sv.Org.ID, Path: "[" + at.key() + "]", Elem: &elemRef{Org: sv.Org, Idx: at}}
 		} else {
 			p = vPtr{Obj: e.id(), Path: "[]"}
 		}
@@ -828,7 +1122,7 @@ func (e *lfEngine) step(fr *lfFrame, st *lfState, in ssa.Instruction) {
 	case *ssa.MakeSlice:
 		n := e.asInt(st, e.val(fr, st, x.Len), x.Len.Type(), "len")
 		e.require(fr, st, in, "make: length ≥ 0: "+exprText(x.Len), geq(n, linConst(0)))
-		fr.env[x] = vSlice{n}
+		fr.env[x] = vSlice{Len: n}
 	case *ssa.MakeMap, *ssa.MakeChan:
 		fr.env[in.(ssa.Value)] = vNilable{ID: e.id(), Nil: 2}
 	case *ssa.MakeInterface:
@@ -870,7 +1164,19 @@ func (e *lfEngine) step(fr *lfFrame, st *lfState, in ssa.Instruction) {
 					delete(st.heap, hk)
 				}
 			}
-			st.heap[key] = e.val(fr, st, x.Val)
+			sv := e.val(fr, st, x.Val)
+			st.heap[key] = sv
+			if e.bits && e.onStore != nil && e.quiet == 0 {
+				if p.Obj == e.recvObj && e.recvObj != 0 && p.Path != "" {
+					e.onStore(st, "field", strings.TrimPrefix(p.Path, "."), e.renderVal(sv), x.Pos(), e.bitsOfVal(sv, typeBits(x.Val.Type())))
+				} else if p.Elem != nil && p.Elem.Org.Name != "d" {
+					if k, isK := p.Elem.Idx.isConst(); isK {
+						e.onStore(st, "wire", fmt.Sprintf("%s[%d]", p.Elem.Org.Name, k), e.renderVal(sv), x.Pos(), e.bitsOfVal(sv, 8))
+					} else {
+						e.onStore(st, "wire", p.Elem.Org.Name+"["+e.linString(p.Elem.Idx)+"]", e.renderVal(sv), x.Pos(), e.bitsOfVal(sv, 8))
+					}
+				}
+			}
 		}
 	case *ssa.Extract:
 		t := e.val(fr, st, x.Tuple)
@@ -881,7 +1187,7 @@ func (e *lfEngine) step(fr *lfFrame, st *lfState, in ssa.Instruction) {
 		}
 	case *ssa.TypeAssert:
 		if x.CommaOk {
-			fr.env[x] = vTuple{e.fresh(st, x.AssertedType, x.Name()), vOpaqueBool{e.id()}}
+			fr.env[x] = vTuple{e.fresh(st, x.AssertedType, x.Name()), vOpaqueBool{ID: e.id()}}
 		} else {
 			fr.env[x] = e.fresh(st, x.AssertedType, x.Name())
 			what := "type assertion without comma-ok: " + exprText(x.X) + ".(" + types.TypeString(x.AssertedType, shortQual) + ")"
@@ -1029,7 +1335,17 @@ func (e *lfEngine) doSlice(fr *lfFrame, st *lfState, x *ssa.Slice) {
 	if x.Low != nil || x.High != nil {
 		e.require(fr, st, x, "slice within length: "+exprText(x), geq(lo, linConst(0)), leq(lo, hi), leq(hi, ln))
 	}
-	fr.env[x] = vSlice{hi.add(lo, -1)}
+	out := vSlice{Len: hi.add(lo, -1)}
+	if sv, ok := base.(vSlice); ok && sv.Org != nil {
+		out.Org = &sliceOrg{ID: sv.Org.ID, Name: sv.Org.Name, Off: sv.Org.Off.add(lo, 1)}
+	} else if bp, ok := base.(vPtr); ok && e.bits {
+		// slice of a (field or local) array: identity by object/path
+		out.Org = &sliceOrg{ID: e.id(), Name: "arr:" + fmt.Sprint(bp.Obj) + bp.Path, Off: lo}
+		if bp.Obj == e.recvObj && e.recvObj != 0 {
+			out.Org.Name = "f:" + strings.TrimPrefix(bp.Path, ".")
+		}
+	}
+	fr.env[x] = out
 }
 
 func (e *lfEngine) doConvert(fr *lfFrame, st *lfState, x *ssa.Convert) {
@@ -1038,7 +1354,11 @@ func (e *lfEngine) doConvert(fr *lfFrame, st *lfState, x *ssa.Convert) {
 	switch {
 	case isIntType(from) && isIntType(to):
 		v := e.asInt(st, src, from, x.Name())
-		fr.env[x] = vInt{e.normalise(st, v, to, exprText(x))}
+		out := vInt{E: e.normalise(st, v, to, exprText(x))}
+		if si, ok := src.(vInt); ok && si.B != nil && e.bits {
+			out = e.withBits(out, si.B.resize(typeBits(to), isSignedInt(from)))
+		}
+		fr.env[x] = out
 	case isIntType(from) && isFloatType(to):
 		fr.env[x] = vFloat{E: e.asInt(st, src, from, x.Name()), Den: 1}
 	case isFloatType(from) && isIntType(to):
@@ -1051,7 +1371,7 @@ func (e *lfEngine) doConvert(fr *lfFrame, st *lfState, x *ssa.Convert) {
 			} else {
 				st.cons = append(st.cons, leq(qq.scale(f.Den), f.E), geq(qq.scale(f.Den), f.E.addConst(-(f.Den-1))))
 			}
-			fr.env[x] = vInt{e.normalise(st, qq, to, exprText(x))}
+			fr.env[x] = vInt{E: e.normalise(st, qq, to, exprText(x))}
 		} else {
 			fr.env[x] = e.fresh(st, to, x.Name())
 		}
@@ -1099,6 +1419,38 @@ func (e *lfEngine) doUnOp(fr *lfFrame, st *lfState, x *ssa.UnOp) {
 				return
 			}
 			v := e.fresh(st, x.Type(), apOf(x.X).String())
+			if e.bits {
+				if p.Elem != nil && p.Elem.Org.Name == "d" {
+					if k, isK := p.Elem.Idx.isConst(); isK {
+						if iv, ok := v.(vInt); ok {
+							v = e.withBits(iv, bvSrc(fmt.Sprintf("d%d", k), 8))
+							st.heap[key] = v
+						}
+					}
+				} else if p.Obj == e.recvObj && e.recvObj != 0 && p.Path != "" && !strings.Contains(p.Path, "[") {
+					name := strings.TrimPrefix(p.Path, ".")
+					switch y := v.(type) {
+					case vInt:
+						if w := typeBits(x.Type()); w > 0 {
+							b := bvSrc("f:"+name, w)
+							if fw, ok := e.fieldWidth[name]; ok && fw < w {
+								for i := fw; i < w; i++ {
+									b.Bits[i] = bvBit{K: '0'}
+								}
+								st.cons = append(st.cons, leq(y.E, linConst(int64(1)<<uint(fw)-1)), geq(y.E, linConst(0)))
+							}
+							v = e.withBits(y, b)
+						}
+					case vOpaqueBool:
+						y.Name = name
+						v = y
+						if e.boolName == nil {
+							e.boolName = map[int]string{}
+						}
+						e.boolName[y.ID] = name
+					}
+				}
+			}
 			if !strings.Contains(p.Path, "[") {
 				st.heap[key] = v
 			}
@@ -1111,7 +1463,7 @@ func (e *lfEngine) doUnOp(fr *lfFrame, st *lfState, x *ssa.UnOp) {
 	case token.SUB:
 		if isIntType(x.Type()) {
 			v := e.asInt(st, e.val(fr, st, x.X), x.X.Type(), x.Name())
-			fr.env[x] = vInt{e.normalise(st, v.scale(-1), x.Type(), exprText(x))}
+			fr.env[x] = vInt{E: e.normalise(st, v.scale(-1), x.Type(), exprText(x))}
 			return
 		}
 		fr.env[x] = e.fresh(st, x.Type(), x.Name())
@@ -1128,11 +1480,11 @@ func (e *lfEngine) doBinOp(fr *lfFrame, st *lfState, x *ssa.BinOp) {
 		if isIntType(x.X.Type()) {
 			a := e.asInt(st, l, x.X.Type(), exprText(x.X))
 			b := e.asInt(st, r, x.Y.Type(), exprText(x.Y))
-			fr.env[x] = vCmp{x.Op, a, b}
+			fr.env[x] = e.mkCmp(st, x, a, b, l, r)
 			return
 		}
 		if isBoolType(x.X.Type()) {
-			fr.env[x] = vOpaqueBool{e.id()}
+			fr.env[x] = vOpaqueBool{ID: e.id()}
 			return
 		}
 		// nil comparisons of pointers/interfaces
@@ -1174,7 +1526,7 @@ func (e *lfEngine) doBinOp(fr *lfFrame, st *lfState, x *ssa.BinOp) {
 			}
 			if id != 0 {
 				// "value(id) is nil" as an opaque boolean keyed by the value's identity
-				var b lfVal = vOpaqueBool{-id}
+				var b lfVal = vOpaqueBool{ID: -id}
 				if x.Op == token.NEQ {
 					b = vNot{b}
 				}
@@ -1182,7 +1534,7 @@ func (e *lfEngine) doBinOp(fr *lfFrame, st *lfState, x *ssa.BinOp) {
 				return
 			}
 		}
-		fr.env[x] = vOpaqueBool{e.id()}
+		fr.env[x] = vOpaqueBool{ID: e.id()}
 		return
 	}
 	if !isIntType(t) {
@@ -1199,7 +1551,7 @@ func (e *lfEngine) doBinOp(fr *lfFrame, st *lfState, x *ssa.BinOp) {
 		if sliceLike(t) && x.Op == token.ADD { // string concatenation
 			if a, ok := l.(vSlice); ok {
 				if b, ok := r.(vSlice); ok {
-					fr.env[x] = vSlice{a.Len.add(b.Len, 1)}
+					fr.env[x] = vSlice{Len: a.Len.add(b.Len, 1)}
 					return
 				}
 			}
@@ -1211,16 +1563,65 @@ func (e *lfEngine) doBinOp(fr *lfFrame, st *lfState, x *ssa.BinOp) {
 	b := e.asInt(st, r, x.Y.Type(), exprText(x.Y))
 	name := exprText(x)
 	nonNeg := func(v Lin) bool { return entails(st.cons, geq(v, linConst(0))) }
+	if e.bits {
+		defer func() {
+			rv, ok := fr.env[x].(vInt)
+			if !ok {
+				return
+			}
+			li, lok := l.(vInt)
+			ri, rok := r.(vInt)
+			w := typeBits(t)
+			if !lok || !rok || w == 0 {
+				return
+			}
+			lb, rb := li.B, ri.B
+			if lb == nil {
+				if k, isK := li.E.isConst(); isK {
+					lb = bvConst(k, w)
+				}
+			}
+			if rb == nil {
+				if k, isK := ri.E.isConst(); isK {
+					rb = bvConst(k, w)
+				}
+			}
+			var out *bv
+			switch x.Op {
+			case token.AND:
+				out = bvBinary("&", lb, rb, w)
+			case token.OR:
+				out = bvBinary("|", lb, rb, w)
+			case token.XOR:
+				out = bvBinary("^", lb, rb, w)
+			case token.AND_NOT:
+				out = bvBinary("&^", lb, rb, w)
+			case token.ADD:
+				out = bvBinary("+", lb, rb, w)
+			case token.SHL:
+				if k, isK := ri.E.isConst(); isK && k >= 0 && k < 64 && lb != nil {
+					out = lb.resize(w, false).shl(int(k), w)
+				}
+			case token.SHR:
+				if k, isK := ri.E.isConst(); isK && k >= 0 && k < 64 && lb != nil {
+					out = lb.resize(w, isSignedInt(x.X.Type())).shr(int(k), isSignedInt(x.X.Type()))
+				}
+			}
+			if out != nil {
+				fr.env[x] = e.withBits(rv, out)
+			}
+		}()
+	}
 	switch x.Op {
 	case token.ADD:
-		fr.env[x] = vInt{e.normalise(st, a.add(b, 1), t, name)}
+		fr.env[x] = vInt{E: e.normalise(st, a.add(b, 1), t, name)}
 	case token.SUB:
-		fr.env[x] = vInt{e.normalise(st, a.add(b, -1), t, name)}
+		fr.env[x] = vInt{E: e.normalise(st, a.add(b, -1), t, name)}
 	case token.MUL:
 		if k, ok := b.isConst(); ok {
-			fr.env[x] = vInt{e.normalise(st, a.scale(k), t, name)}
+			fr.env[x] = vInt{E: e.normalise(st, a.scale(k), t, name)}
 		} else if k, ok := a.isConst(); ok {
-			fr.env[x] = vInt{e.normalise(st, b.scale(k), t, name)}
+			fr.env[x] = vInt{E: e.normalise(st, b.scale(k), t, name)}
 		} else {
 			fr.env[x] = e.fresh(st, t, name)
 		}
@@ -1242,9 +1643,9 @@ func (e *lfEngine) doBinOp(fr *lfFrame, st *lfState, x *ssa.BinOp) {
 			// a = k·q + r, 0 ≤ r ≤ k−1, q ≥ 0
 			st.cons = append(st.cons, geq(a, q.scale(k).add(rm, 1)), leq(a, q.scale(k).add(rm, 1)), geq(rm, linConst(0)), leq(rm, linConst(k-1)), geq(q, linConst(0)))
 			if x.Op == token.QUO {
-				fr.env[x] = vInt{q}
+				fr.env[x] = vInt{E: q}
 			} else {
-				fr.env[x] = vInt{rm}
+				fr.env[x] = vInt{E: rm}
 			}
 			return
 		}
@@ -1263,7 +1664,7 @@ func (e *lfEngine) doBinOp(fr *lfFrame, st *lfState, x *ssa.BinOp) {
 			if nonNeg(other) {
 				st.cons = append(st.cons, leq(s, other))
 			}
-			fr.env[x] = vInt{s}
+			fr.env[x] = vInt{E: s}
 			return
 		}
 		fr.env[x] = e.fresh(st, t, name)
@@ -1272,13 +1673,13 @@ func (e *lfEngine) doBinOp(fr *lfFrame, st *lfState, x *ssa.BinOp) {
 			q := linSym(e.newSym(name))
 			p := int64(1) << uint(k)
 			st.cons = append(st.cons, leq(q.scale(p), a), geq(q.scale(p), a.addConst(-(p-1))), geq(q, linConst(0)))
-			fr.env[x] = vInt{q}
+			fr.env[x] = vInt{E: q}
 			return
 		}
 		fr.env[x] = e.fresh(st, t, name)
 	case token.SHL:
 		if k, ok := b.isConst(); ok && k >= 0 && k < 31 {
-			fr.env[x] = vInt{e.normalise(st, a.scale(int64(1)<<uint(k)), t, name)}
+			fr.env[x] = vInt{E: e.normalise(st, a.scale(int64(1)<<uint(k)), t, name)}
 			return
 		}
 		fr.env[x] = e.fresh(st, t, name)
@@ -1435,9 +1836,9 @@ func (e *lfEngine) execLoop(fr *lfFrame, st *lfState, l *Loop, from *ssa.BasicBl
 		for _, pi := range phis {
 			switch {
 			case pi.isInt:
-				f2.env[pi.phi] = vInt{pi.sym}
+				f2.env[pi.phi] = vInt{E: pi.sym}
 			case pi.isSl:
-				f2.env[pi.phi] = vSlice{pi.sym}
+				f2.env[pi.phi] = vSlice{Len: pi.sym}
 			default:
 				f2.env[pi.phi] = e.fresh(st, pi.phi.Type(), name(pi))
 			}
